@@ -42,8 +42,9 @@ var histories = []history{
 	{id: "reassigned-number", pre: each(func(n string) string { return n + " = 42; " })},
 	{id: "reassigned-other-native", pre: "var t0 = TypeError; TypeError = RangeError; RangeError = ReferenceError; ReferenceError = SyntaxError; SyntaxError = URIError; URIError = t0; "},
 	{id: "deleted", pre: each(func(n string) string { return "delete " + n + "; " })},
-	{id: "shadowed-parameter", open: "(function(" + strings.Join(errorGlobals, ", ") + "){ ", close: " })(1, 2, 3, 4, 5, 6, 7);"},
-	{id: "shadowed-var", open: "(function(){ var " + strings.Join(errorGlobals, " = 0, ") + " = function(){}; ", close: " })();"},
+	// (global code reached from inside the wrapper - indirect eval, Function code - needs the global nop)
+	{id: "shadowed-parameter", pre: "function nop(){} ", open: "(function(" + strings.Join(errorGlobals, ", ") + "){ ", close: " })(1, 2, 3, 4, 5, 6, 7);"},
+	{id: "shadowed-var", pre: "function nop(){} ", open: "(function(){ var " + strings.Join(errorGlobals, " = 0, ") + " = function(){}; ", close: " })();"},
 	{id: "prototype-assigned", pre: each(func(n string) string { return n + ".prototype = {name: \"Fake\"}; " })},
 	{id: "prototype-constructor-edited", pre: each(func(n string) string { return n + ".prototype.constructor = Object; " })},
 	{id: "prototype-name-edited", pre: each(func(n string) string { return n + ".prototype.name = \"Renamed\"; " }), name: "Renamed"},
@@ -53,7 +54,8 @@ var histories = []history{
 		}
 		return "delete " + n + ".prototype.name; "
 	}), name: "Error"},
-	{id: "toString-replaced", pre: `Error.prototype.toString = function(){ return "custom"; }; `, toString: "custom"},
+	// (otto's NativeError prototypes carry an own toString, a shape matter of C14: replace them all)
+	{id: "toString-replaced", pre: each(func(n string) string { return n + `.prototype.toString = function(){ return "custom"; }; ` }), toString: "custom"},
 	{id: "Object-prototype-polluted", pre: `Object.prototype.name = "Polluted"; Object.prototype.message = "pm"; Object.prototype.stack = "ps"; `},
 	{id: "getPrototypeOf-replaced", pre: `Object.getPrototypeOf = function(){ return null; }; `},
 }
